@@ -104,3 +104,16 @@ Lemma panel_entries_removed_only_by_their_steps :
   /\ never_aliased "server." users = true /\ never_aliased "server." sessions = true
   /\ never_aliased "server." queue = true /\ deletes_are_on_fields "server." = true.
 Proof. repeat split; vm_compute; reflexivity. Qed.
+
+(* One valve per user, for as long as the record lives (C19: the rates bound the user's sessions and
+   connections TOGETHER; Model/Panel.v gives a record its valve at creation and never another): no
+   function assigns ActiveUser.valve or takes its address - it is set in the composite literal that
+   creates the record and only read afterwards. *)
+Definition never_reassigned (pkg v : string) : bool :=
+  forallb (fun fe : string * list ev =>
+             negb (prefix pkg (fst fe)) ||
+             negb (existsb (fun e : ev => (seqb (fst e) "set" || seqb (fst e) "w" || seqb (fst e) "addr" || seqb (fst e) "del") && seqb (snd e) v) (snd fe))) fn_events.
+Lemma user_valve_is_never_replaced : never_reassigned "server." "ActiveUser.valve" = true.
+Proof. vm_compute. reflexivity. Qed.
+Lemma user_valve_is_read : existsb (fun fe : string * list ev => existsb (is_read "ActiveUser.valve") (snd fe)) fn_events = true.
+Proof. vm_compute. reflexivity. Qed.
